@@ -32,14 +32,14 @@ Print Assumptions c12_decode_old_refuted.
 From GB Require Import Model.Forward Proofs.ForwardProofs Model.MDFilter Proofs.MDFilterProofs.
 
 (* a call that returns DeadlineExceeded was stopped by its deadline (unless the target or an adapter itself said so) *)
-Theorem c12_deadline_exceeded_means_deadline : forall sc s, Reach sc s -> mp s = MRet (RErr 4) ->
-  ~ In 4 (script_codes sc) -> fired s = CtxDeadline.
+Theorem c12_deadline_exceeded_means_deadline : forall sc s, Reach sc s -> mp s = MRet (RErr 4%Z) ->
+  ~ In 4%Z (script_codes sc) -> fired s = CtxDeadline.
 Proof. exact deadline_exceeded_means_deadline. Qed.
 Print Assumptions c12_deadline_exceeded_means_deadline.
 
 (* every returned status has a source: scripted (target / adapter), unexpected EOF, Canceled, or the fired deadline *)
 Theorem c12_result_source : forall sc s e, Reach sc s -> mp s = MRet (RErr e) ->
-  In e (script_codes sc) \/ e = 14 \/ e = 1 \/ (e = 4 /\ fired s = CtxDeadline).
+  (In e (script_codes sc) \/ e = 14 \/ e = 1 \/ (e = 4 /\ fired s = CtxDeadline))%Z.
 Proof. exact result_source. Qed.
 Print Assumptions c12_result_source.
 
@@ -57,6 +57,6 @@ Proof. exact timeout_never_forwarded. Qed.
 Print Assumptions c12_never_forwarded.
 
 (* waiting for the connection takes at most half of what is left: never later than the call's deadline *)
-Theorem c12_halved_never_later : forall now d, now <= d -> now <= halved_deadline now d <= d.
+Theorem c12_halved_never_later : forall now d : Z, (now <= d -> now <= halved_deadline now d <= d)%Z.
 Proof. exact halved_never_later. Qed.
 Print Assumptions c12_halved_never_later.
